@@ -299,6 +299,7 @@ func runC04(c *core.Ctx) {
 	c.Rule("C04.dynamic", "A2: evaluateDynamicNode stores both operand types obtained from Type() before lookupEvaluationFn, and looks up before eval; a Type() error is returned with the right side flag")
 	c.Rule("C04.lookup", "A3: lookupEvaluationFn indexes evaluationFuncs with operationKey{operator: n.operator, leftType: n.leftType, rightType: n.rightType}; Type() of a dynamic node looks binaryConstantTypes up with the same three fields and never stores constReturnType")
 	c.Rule("C04.sigcheck", "A2: in EvalPredicate and expression.Eval the Type(scope) call precedes every Eval* call and its error is returned")
+	c.Rule("C04.boolspec", "A1: EvalBinaryNode.EvalBool re-derives the operand types for the point (evaluateDynamicNode on the node's own operands) exactly when an operand is dynamic — the node's own IsDynamic() is false for every comparison, whose result type is constant — and evaluates the specialised function otherwise")
 	c.Rule("C04.guards", "A1: EvalBinaryNode.Eval{Bool,Int,Float,String,Duration} return the container field of the requested kind only under that kind's flag, else an error")
 
 	pkg := c.P.Pkg("tick/stateful")
@@ -466,6 +467,8 @@ func runC04(c *core.Ctx) {
 
 	c04Respec(c, pkg)
 	c04SigCheck(c)
+	c04BoolSpec(c, pkg)
+	ruleCopyReset(c, "C04.copyreset")
 	_ = info
 }
 
@@ -925,4 +928,51 @@ func c04SigCheck(c *core.Ctx) {
 			c.Ok("C04.sigcheck", fn.Name())
 		}
 	}
+}
+
+func c04BoolSpec(c *core.Ctx, pkg *packages.Package) {
+	info := pkg.TypesInfo
+	fn := c.Need("C04.boolspec", "tick/stateful", "EvalBinaryNode", "EvalBool")
+	if fn == nil {
+		return
+	}
+	recv := an.RecvVarName(fn.Decl)
+	eng := &an.Engine{Prog: c.P,
+		TrackCall: func(call *ast.CallExpr, callee *types.Func) string {
+			if callee != nil && core.RecvTypeName(callee) == "EvalBinaryNode" && (callee.Name() == "evaluateDynamicNode" || callee.Name() == "eval") {
+				return callee.Name()
+			}
+			return ""
+		},
+		Classify: func(a an.Atom) (string, bool) {
+			switch a.Key {
+			case recv + ".leftEvaluator.IsDynamic()":
+				return "ldyn", false
+			case recv + ".rightEvaluator.IsDynamic()":
+				return "rdyn", false
+			}
+			return "", false
+		}}
+	paths, err := eng.Run(fn)
+	if err != nil {
+		c.Undecided("C04.boolspec", "EvalBinaryNode.EvalBool", fn.Decl.Pos(), "%v", err)
+		return
+	}
+	an.CheckTable(c, "C04.boolspec", "EvalBinaryNode.EvalBool", paths, an.Table{Atoms: []string{"ldyn", "rdyn"},
+		Outcome: func(p *an.Path) string {
+			s := an.Seq(p, "evaluateDynamicNode", "eval")
+			if ev := p.Find("evaluateDynamicNode"); ev != nil {
+				if len(ev.Args) != 4 || ev.Args[2] != recv+".leftEvaluator" || ev.Args[3] != recv+".rightEvaluator" {
+					s += "(wrong operands)"
+				}
+			}
+			return s
+		},
+		Expect: func(a map[string]bool) string {
+			if a["ldyn"] || a["rdyn"] {
+				return "evaluateDynamicNode"
+			}
+			return "eval"
+		}})
+	_ = info
 }
